@@ -324,6 +324,10 @@ class RingDom:
         self.assumptions.append("%s: generic path assumes (%s %s %s) is %s" % (self.where, "lhs", op, "rhs", default))
         return QB(default, op)
 
+    def complex_order(self, op, a, b):
+        # numpy orders complex numbers lexicographically: the generic outcome is that of the real parts
+        return self.cmp(op, a.re, b.re) if not self.is_zero(a.re - b.re) else self.cmp(op, a.im, b.im)
+
     def b_and(self, a, b):
         da = a.default if isinstance(a, QB) else a
         db = b.default if isinstance(b, QB) else b
